@@ -343,3 +343,30 @@ Proof.
   destruct ex_builds2 as (t & E). exists t. split; [|exact ex_noco2].
   vm_compute in E. injection E as <-. vm_compute. reflexivity.
 Qed.
+
+(* ---------- end to end: the tree tsne.hpp builds, `new QuadTree(Y, N)` ---------- *)
+
+
+Lemma tsne_tree_final : forall slack fuel data N ok t,
+  0 <= slack -> (N <= length data)%nat ->
+  tsne_tree slack fuel data N = Some (Done ok t) ->
+  ok = true /\ spec data (seq 0 N) t /\ geom_ok t /\ count_ok t /\ is_correct data t = true /\
+  NoDup (all_indices t) /\
+  (NoCo data (seq 0 N) ->
+     forall i p, nth_error data i = Some p ->
+       (forall a, feq (forces_at p i 0 t a) (fadd a (exact_sums data p i (seq 0 N)))) /\
+       (forall theta, 0 <= theta -> 8 * (theta * theta) <= 1 ->
+          bound theta (forces_at p i theta t (0, 0, 0)) (exact_sums data p i (seq 0 N)))).
+Proof.
+  intros slack fuel data N ok t Hs HN E. unfold tsne_tree in E.
+  destruct (auto_root slack data N) as [c|] eqn:Ea; [|discriminate]. injection E as E.
+  pose proof (auto_root_in_root slack data N c Hs HN Ea) as Hin. unfold fill in E.
+  destruct (routed_once_final fuel data (seq 0 N) c ok t Hin E) as (Hok & Hsp & Hg & _).
+  destruct (observers_final fuel data (seq 0 N) c ok t Hin E) as (Hc & Hnd & _).
+  split; [exact Hok|]. split; [exact Hsp|]. split; [exact Hg|].
+  split; [apply (count_ok_final fuel data (seq 0 N) c ok t Hin E)|]. split; [exact Hc|]. split; [exact Hnd|].
+  intros HNo i p Hp. apply (spec_forces_final data (seq 0 N) t Hsp HNo i p Hp).
+Qed.
+
+Lemma ex_tsne_tree : exists ok t, tsne_tree (1 # 100000) 12 ex_data 5 = Some (Done ok t) /\ (5 <= length ex_data)%nat.
+Proof. eexists. eexists. split; [vm_compute; reflexivity | cbn; lia]. Qed.
